@@ -153,6 +153,19 @@ class Gen:
             x = r.choice(desc[dk - 7]['duck_of'])
             op = r.choice(['iterate', 'keys', 'get'])
             events += [['lookup', op, x], ['register', dk, [op], r.random() < 0.3], ['lookup', op, x]]
+        subs = [(7 + i, b) for i, d in enumerate(desc) for b in d['bases'] if b >= 7]
+        if subs and r.random() < 0.6:
+            # a type registered exact=True, a lookup of a subclass instance (answered and cached), then the SAME registration widened
+            # to exact=False — with the very same handler objects, or with no handlers given at all — and the lookup again
+            b, a = r.choice(subs)
+            op = r.choice(ops_avail[:3])
+            events += [['register', a, [op], True], ['lookup', op, b],
+                       ['register', a, r.choice([[op], []]), False, True], ['lookup', op, b], ['lookup', op, a]]
+        if r.random() < 0.3:
+            # re-registrations that repeat handler objects already in place
+            for _ in range(r.randint(1, 3)):
+                events.append(['register', r.randrange(7, 7 + n), r.sample(ops_avail, r.choice([0, 1, 2])), r.random() < 0.3, True])
+                events.append(['lookup', r.choice(ops_avail), r.choice(list(range(7, 7 + n)))])
         for t in range(7, 7 + n):
             events.append(['lookup', r.choice(ops_avail[:2]), t])
         return {'classes': desc, 'registry': reg, 'events': events}
@@ -251,15 +264,21 @@ def run_impl(case):
         auto.append([op, row])
     results = []
     tagn = 100
+    last = {}
     for ev in case['events']:
         if ev[0] == 'register':
-            _, t, kws, exact = ev
+            _, t, kws, exact = ev[:4]
+            reuse = len(ev) > 4 and ev[4]
             kw = {}
             tags = []
             for op in kws:
-                tagn += 1
-                kw[op] = _mk_handler(op, tagn)
-                tags.append(tagn)
+                if reuse and (t, op) in last:
+                    kw[op], tg = last[(t, op)]          # the handler object registered for this type before
+                else:
+                    tagn += 1
+                    kw[op], tg = _mk_handler(op, tagn), tagn
+                last[(t, op)] = (kw[op], tg)
+                tags.append(tg)
             reg.register(classes[t], exact=exact, **kw)
             results.append({'tags': tags})
         else:
